@@ -13,6 +13,11 @@ ENGINES = [
      "kind_free_text": "real Popen::create on the real kernel in trace mode: libc entry points interposed, calls of parent and forked "
                        "child logged via shared memory without allocating, k-th call of a kind made to fail, exec intercepted with a "
                        "snapshot of the child's table/signals/ids/allocations; the Lean model replays the same answers"},
+    {"name": "builder", "path": "/verif/harness/src/builder.rs + src/trace.rs + /verif/checks/builder.py + /verif/lean/Model/Builder.lean",
+     "serves_properties": ["C16"],
+     "kind_free_text": "random and exhaustive-small builder call sequences on the real Exec (clone with decoy edits included), "
+                       "terminator run in trace mode; execve argv/envp, chdir, stream pipes and panics compared with the Lean "
+                       "model Builder.applyAll/terminate and with an independent dict-fold oracle"},
     {"name": "comm", "path": "/verif/harness/src/comm.rs + src/interpose.rs + /verif/checks/comm.py + /verif/lean/Model/Comm.lean",
      "serves_properties": ["C01", "C02", "C03", "C04"],
      "kind_free_text": "real Communicator against virtual pipes / scripted child / virtual clock (poll, read, write, close, "
@@ -208,5 +213,16 @@ CLAIMED["C18"] = {
             "default), c18_exec_only_after_reset. On the real code the child's mask and SIGPIPE disposition are read inside the "
             "intercepted exec for masks none/SIGPIPE/SIGTERM/SIGCHLD/all/real-time/random x parent SIGPIPE ignored/default.",
     "note": SPAWN_NOTE,
+}
+CLAIMED["C16"] = {
+    "engine": "builder", "design_ref": "DESIGN.md section 6, C16",
+    "technique": "Lean 4 proof (refinement of the builder's env vector to a finite map edited in order; induction over the call list) "
+                 "+ differential run of call sequences on the real Exec",
+    "text": "c16_args (argv = command :: concatenation of arg/args payloads in call order), c16_env_refines (for every call sequence "
+            "and inherited environment, lookup in the final environment = fold of set/extend/remove/clear over the inherited map; "
+            "no edit => inherit), with c06_formatEnv_spec giving one entry per name; c16_shell_single_arg; c16_set_once; "
+            "c16_data_refused; c16_late_refusal_iff. Clone independence is a property of Rust values and is checked by decoy edits "
+            "after clone() in the differential run, not proved.",
+    "note": COMMON_NOTE,
 }
 NOT_CLAIMED = {}
